@@ -785,6 +785,59 @@ impl<'r> Gen<'r> {
         Some(out)
     }
 
+    /// a function-typed local whose initialiser is not a function literal: a read of another
+    /// function (global, closure or parameter) or an if-expression choosing between two; called afterwards
+    fn fn_alias(&mut self, depth: u32) -> Vec<Stmt> {
+        let pure = self.ctx.last().map(|c| c.pure).unwrap_or(false);
+        if pure || self.no_effects {
+            return Vec::new();
+        }
+        let mut cands: Vec<BId> = self.fns.iter().filter(|f| !f.recursive).map(|f| f.b).collect();
+        for b in self.visible() {
+            let bd = &self.p.binders[b];
+            if bd.kind != BKind::Global && !bd.mutable && matches!(bd.ty, Ty::Fn(..)) && !cands.contains(&b) {
+                cands.push(b);
+            }
+        }
+        if cands.is_empty() {
+            return Vec::new();
+        }
+        self.feat("function_alias");
+        let f = *self.rng.pick(&cands);
+        let fty = self.p.binders[f].ty.clone();
+        let (ps, ret) = match &fty {
+            Ty::Fn(ps, r) => (ps.clone(), (**r).clone()),
+            _ => return Vec::new(),
+        };
+        let same: Vec<BId> = cands.iter().copied().filter(|b| self.p.binders[*b].ty == fty).collect();
+        let init = if same.len() >= 2 && self.rng.chance(1, 3) {
+            self.feat("function_alias_through_if");
+            let g = *self.rng.pick(&same);
+            let c = self.expr(&Ty::Bool, depth.min(1));
+            Expr::If { branches: vec![(c, Block { stmts: vec![], value: Some(Box::new(Expr::Var(f))) })], els: Some(Block { stmts: vec![], value: Some(Box::new(Expr::Var(g))) }) }
+        } else {
+            Expr::Var(f)
+        };
+        let mut out = Vec::new();
+        let a = self.declare("al", fty, false, BKind::Local);
+        out.push(Stmt::Def { b: a, init });
+        for _ in 0..(1 + self.rng.below(2)) {
+            let args = ps.iter().map(|t| self.expr(t, depth.min(1))).collect();
+            let site = self.p.site();
+            let call = Expr::Call { callee: Box::new(Expr::Var(a)), args, site };
+            if ret != Ty::Void && ret.printable(&self.p) && self.rng.chance(2, 3) {
+                let s2 = self.p.site();
+                out.push(Stmt::Expr(Expr::StdCall { f: Std::Print, args: vec![call], site: s2 }));
+            } else if ret == Ty::Void {
+                out.push(Stmt::Expr(call));
+            } else {
+                let k = self.declare("k", ret.clone(), false, BKind::Local);
+                out.push(Stmt::Def { b: k, init: call });
+            }
+        }
+        out
+    }
+
     fn loop_stmt(&mut self, depth: u32) -> Vec<Stmt> {
         self.feat("loop");
         let mut out = Vec::new();
@@ -903,6 +956,7 @@ impl<'r> Gen<'r> {
             if nested && !pure { 2 } else { 0 },
             if nested { 1 } else { 0 },
             if self.n_unreach == 0 { 1 } else { 0 },
+            if !pure { 1 } else { 0 },
         ]) {
             0 => vec![self.def_stmt(d)],
             1 => self.effect_stmt(d).into_iter().collect(),
@@ -916,6 +970,14 @@ impl<'r> Gen<'r> {
             6 => {
                 self.feat("block_statement");
                 vec![Stmt::Block(self.stmt_block(d.saturating_sub(1), 3))]
+            }
+            8 => {
+                let v = self.fn_alias(d);
+                if v.is_empty() {
+                    vec![self.def_stmt(d)]
+                } else {
+                    v
+                }
             }
             _ => {
                 // guarded unreachable
